@@ -34,6 +34,17 @@ pub proof fn axiom_str_len_bound(s: &str)
 {
 }
 
+// `&s[a..]`, `&s[..b]`, `&s[a..b]` on `str`: vstd states the precondition of `<str as Index<I>>::index`
+// (range in bounds, both ends on char boundaries -- a panic otherwise) but gives it no postcondition;
+// the missing half is vstd's own `index_postcondition` (the result's bytes are that byte sub-range).
+pub assume_specification<I: core::slice::SliceIndex<str>>[ <str as core::ops::Index<I>>::index ](
+    s: &str,
+    i: I,
+) -> (r: &<I as core::slice::SliceIndex<str>>::Output)
+    ensures
+        vstd::slice::SliceIndexSpec::index_postcondition(&i, s, r),
+;
+
 // ---- pattern vocabulary of the assumed contracts ------------------------------------------------
 // `p` occurs in `s` at char index `k`
 pub open spec fn sp_occurs_at(s: Seq<char>, p: Seq<char>, k: int) -> bool {
@@ -68,7 +79,7 @@ pub trait VfStrExt {
     // str::find(char): byte offset of the FIRST occurrence (hence a char boundary), or None
     fn vf_find_char(&self, c: char) -> (r: Option<usize>)
         ensures
-            r is None ==> forall|j: int| 0 <= j < self.vf_view().len() ==> self.vf_view()[j] != c,
+            r is None ==> !self.vf_view().contains(c),
             r is Some ==> exists|k: int|
                 sp_is_first_char(self.vf_view(), c, k) && r->Some_0 as int == sp_blen(
                     self.vf_view().take(k),
